@@ -75,7 +75,7 @@ def text_of(rng: random.Random, cls: str | None = None) -> str:
 
 
 def number_of(rng: random.Random):
-    return rng.choice([0, 1, -1, 7, 42, 10**12, -3, 1.5, -0.25, 1e300, 1e-7, 2.0, 0.0, "inf", "nan", 1234567.0, 0.30000000000000004, -0.0, 10**30,
+    return rng.choice([0, 1, -1, 7, 42, 10**12, -3, 1.5, -0.25, 1e300, 1e-7, 2.0, 0.0, 1.0, "inf", "nan", 1234567.0, 0.30000000000000004, -0.0, 10**30,
                        True, False])
 
 
@@ -201,6 +201,9 @@ def build(r):
         return ht.TagList(*kids)
     if k == "tag":
         return build_tag(r)
+    if k == "dup":
+        one = build(r["c"])
+        return [one, [one]] + [one] * (r["n"] - 2) if r.get("nest") else [one] * r["n"]
     if k == "bad":
         t = r["t"]
         return {"object": object, "dict": lambda: {"a": 1}, "bytes": lambda: b"xy", "set": lambda: {1, 2},
